@@ -419,7 +419,7 @@ func (g *typeGuesser) isNull() bool {
 
 func (g *typeGuesser) parseNumber() (*json.Number, error) {
 	if g.number == nil {
-		n, err := json.NewNumber(g.data)
+		n, err := json.ParseNumber(g.data)
 		if err != nil {
 			return nil, err
 		}
